@@ -241,30 +241,6 @@ pub fn gen_timeline(rng: &mut Rng, k: &Knobs) -> TlSpec {
         }
         kfs.push(kf);
     }
-    // A u8 property interpolated with a Back easing from the implicit 0% default (0) would
-    // undershoot below zero, which is the documented integer-overshoot panic: give such a
-    // timeline an explicit in-range 0% keyframe for `k`.
-    if k.narrow_u8 && kfs.iter().any(|f| f.k.is_some()) {
-        let v = gen_u8_value(rng, k);
-        if let Some(first) = kfs.iter_mut().find(|f| f.pos == 0.0) {
-            if first.k.is_none() {
-                first.k = Some(v);
-            }
-        } else {
-            kfs.insert(
-                0,
-                KfSpec {
-                    pos: 0.0,
-                    a: None,
-                    b: None,
-                    n: None,
-                    k: Some(v),
-                    easing: None,
-                    via_from: false,
-                },
-            );
-        }
-    }
     if rng.chance(k.p_permute) {
         rng.shuffle(&mut kfs);
     }
@@ -277,7 +253,30 @@ pub fn gen_timeline(rng: &mut Rng, k: &Knobs) -> TlSpec {
         kfs,
     };
     sanitize_total(&mut tl);
+    strip_u8_under_back(&mut tl);
     tl
+}
+
+/// A u8 property eased with a Back curve can leave the type's range: from the implicit 0% default,
+/// or by ratcheting outwards when a state animator re-blends again and again (every blend starts
+/// with an undershoot away from the target). That is the *documented* integer-overshoot panic of
+/// `Lerp`, not a defect, so timelines in which a Back easing is in force never keyframe `k`.
+pub fn strip_u8_under_back(tl: &mut TlSpec) {
+    if tl.uses_back() {
+        for kf in tl.kfs.iter_mut() {
+            kf.k = None;
+            kf.via_from = false;
+        }
+    }
+}
+
+/// Inputs the generator never produces and the shrinkers must not produce either.
+pub fn timeline_is_in_domain(tl: &TlSpec) -> bool {
+    !(tl.uses_back() && tl.kfs.iter().any(|k| k.k.is_some()))
+}
+
+pub fn merged_is_in_domain(m: &MergedSpec) -> bool {
+    m.parts.iter().all(timeline_is_in_domain)
 }
 
 /// Keeps the total duration representable in f32 (otherwise "finite in => finite out" is
